@@ -10,6 +10,7 @@ cp /repo/Cargo.lock harness/Cargo.lock
 (cd harness && CARGO_TARGET_DIR=../.build/target-dvh cargo build --offline --release 2>&1 | tail -3)
 (cd /repo && CARGO_TARGET_DIR=/verif/.build/target-dovi cargo build --offline --bin dovi_tool 2>&1 | tail -3)
 python3 tools/translate.py
+python3 -m tools.pqgen
 (cd coq && coq_makefile -f _CoqProject -o Makefile >/dev/null 2>&1 && timeout 3000 make -j16 2>&1 | grep -v "^Warning" | tail -20)
 bash driver/build.sh
 echo "setup done"
